@@ -90,6 +90,8 @@ type frame struct {
 	variant0    map[*ssa.BasicBlock]string
 	caller      *frame
 	boundDepth  int
+	fvBind      map[*ssa.FreeVar]TV
+	csUsed      map[*CallsiteC]bool
 	noInvAssume bool // >0 while translating under a binder (quantifier, spec definition)
 }
 
@@ -434,6 +436,23 @@ func (f *frame) wfFacts(t string, ty types.Type, alloc string, depth int) []stri
 				}
 			}
 		}
+	}
+	return out
+}
+
+// ptrInvsOf: invariants declared for the pointer type itself (*T), keyed by text.
+func (f *frame) ptrInvsOf(ref TV, st *bstate, onlyPtr bool) map[string]string {
+	out := map[string]string{}
+	pt, ok := ref.Ty.Underlying().(*types.Pointer)
+	if !ok {
+		return out
+	}
+	for _, ti := range f.eng().typeInvs {
+		if !ti.ptr || !types.Identical(ti.ty, pt.Elem()) {
+			continue
+		}
+		env := &Env{f: f, vars: map[string]TV{"self": ref}, st: st, pkg: ti.pkg}
+		out[ti.c.Text] = f.transBool(ti.c.Expr, env)
 	}
 	return out
 }
